@@ -178,3 +178,12 @@ def _agg_delta(aggname, keys):
 
 for _n, _k in AGGS.items():
     _agg_delta(_n, _k)
+
+# "leaves every other number in every table unchanged" also across RUNS of a poller that keeps its feed frame: the handler must
+# not modify the tables its caller passed in (frame condition of CombinedDataHandler.__init__, contracts/C09.py)
+import contracts.C09 as _c09  # noqa: E402,F401
+from pyvc.api import UNITS as _UNITS  # noqa: E402
+
+for _u in list(_UNITS.get("C09", [])):
+    if _u["name"].startswith("init.") and not any(x["name"] == "inputs_not_modified." + _u["name"] for x in _UNITS.get("C11", [])):
+        _UNITS.setdefault("C11", []).append(dict(_u, prop="C11", name="inputs_not_modified." + _u["name"]))
